@@ -266,6 +266,10 @@ class ExprMixin:
         return self.binop(type(e.op).__name__, self.eval(e.left), self.eval(e.right), e)
 
     def binop(self, op, a, b, node, inplace=False):
+        if type(a).__name__ == "_EmptySet" and isinstance(b, SV) and isinstance(b.ty, TSet):
+            a = b.ty.empty()
+        if type(b).__name__ == "_EmptySet" and isinstance(a, SV) and isinstance(a.ty, TSet):
+            b = a.ty.empty()
         conc = not isinstance(a, SV) and not isinstance(b, SV)
         if conc and not isinstance(a, (tuple, list, SDict)) and not isinstance(b, (tuple, list, SDict)):
             import operator
@@ -791,6 +795,11 @@ class ExprMixin:
                 self.oblige("unpack", False, node, f"cannot unpack {len(v.ty.elems)}-tuple into {n} names")
                 raise RaiseEx("ValueError", None, node)
             return [v.ty.get(v, i) for i in range(n)]
+        if isinstance(v, SV) and isinstance(v.ty, TRec) and getattr(v.ty, "tuple_like", False):
+            if len(v.ty.fields) != n:
+                self.oblige("unpack", False, node, f"cannot unpack a {len(v.ty.fields)}-field named tuple into {n} names")
+                raise RaiseEx("ValueError", None, node)
+            return [v.ty.get(v, f) for f in v.ty.fields]
         if isinstance(v, SV) and isinstance(v.ty, TSeq):
             ok = v.length() == n
             self.oblige("unpack", ok, node)
